@@ -1,6 +1,7 @@
 import Rangers.Basic.Hex
 import Rangers.Basic.Line
 import Rangers.Model.Pool
+import Rangers.Model.PoolChain
 /-!
 Line-protocol driver for the transaction pool model (C17).
 
@@ -27,6 +28,8 @@ structure St where
   pool : Pool := Pool.empty rcvTxPoolSize
   sigma : List (Nat × Nat) := []
   table : List (Nat × Tx) := []
+  chain : List Chain.CBlock := []     -- `mode=chain`: the canonical chain as the model sees it
+  future : List Nat := []
 
 def sigmaFn (l : List (Nat × Nat)) (a : Nat) : Nat :=
   match l with
@@ -119,6 +122,21 @@ def step (st : St) (line : String) : St × String :=
     match id.toNat? >>= lookupTx st.table with
     | some t => (st, showBool (st.pool.evicted.contains t.hash))
     | none => (st, "bad-op")
+  | ["genesis", id] =>
+    match ofHex? id with
+    | some h => ({ st with chain := [⟨beToNat h, 0, 0, 0, 0, [], [], []⟩], future := [] }, "ok")
+    | none => (st, "bad-op")
+  | ["deliver", id, pre, h, qn, pv, t, sk, e] =>
+    -- AddBlockOnChain(block): the model decides the fork choice and makes the pool calls itself
+    match ofHex? id, ofHex? pre, h.toNat?, qn.toNat?, pv.toNat?, parseIds t >>= idsToTxs st.table,
+        parseIds sk >>= idsToTxs st.table, parseIds e >>= idsToTxs st.table with
+    | some id, some pre, some h, some qn, some pv, some t, some sk, some e =>
+      let b : Chain.CBlock := ⟨beToNat id, beToNat pre, h, qn, pv, t, sk.map (·.hash), e.map (·.hash)⟩
+      match Chain.addBlock ⟨st.pool, st.chain, st.future⟩ b with
+      | (c, r) =>
+        if r == .succ && st.future.contains b.id then (st, "unmodelled")
+        else ({ st with pool := c.pool, chain := c.chain, future := c.future }, toString r.code)
+    | _, _, _, _, _, _, _, _ => (st, "bad-op")
   | ["clear"] => ({ st with pool := st.pool.clear }, "ok")
   | ["restart"] => ({ st with pool := st.pool.restart }, "ok")
   | ["get", id] =>
